@@ -212,3 +212,344 @@ Proof.
       pose proof (Hin (sp, y) (or_introl eq_refl)) as E. cbn [snd] in E. rewrite E. f_equal. apply IHr.
       intros z Hz. apply Hin. right. exact Hz.
 Qed.
+
+(** ** [abbreviate] preserves the normal form *)
+Definition apred (q : xexpr) : xexpr := abbr_pred_top (abbreviate q).
+
+Definition astep (s : xstep) : xstep :=
+  match s with
+  | XStep a t preds =>
+      match a, t, preds with
+      | AFull XSelf, TType KNode, [] => XDot
+      | AFull XParent, TType KNode, [] => XDotDot
+      | _, _, _ =>
+          XStep (match a with AFull XChild => AOmit | AFull XAttribute => AAt | _ => a end) t (map apred preds)
+      end
+  | XDot => XDot
+  | XDotDot => XDotDot
+  end.
+
+Definition arest (rest : list (sep * xstep)) : list (sep * xstep) :=
+  map (fun x : sep * xstep => let (s, y) := x in (s, astep y)) rest.
+
+Lemma abbreviate_path_eq st first rest :
+  abbreviate (XPath st first rest) =
+  match st with
+  | SAbs SSlash =>
+      match abbr_steps ((SSlash, astep first) :: arest rest) with
+      | (s, x) :: r => XPath (SAbs s) x r
+      | [] => XPath st (astep first) []
+      end
+  | SFrom f SSlash =>
+      match abbr_steps ((SSlash, astep first) :: arest rest) with
+      | (s, x) :: r => XPath (SFrom (abbreviate f) s) x r
+      | [] => XPath (SFrom (abbreviate f) SSlash) (astep first) []
+      end
+  | SFrom f SDSlash => XPath (SFrom (abbreviate f) SDSlash) (astep first) (abbr_steps (arest rest))
+  | _ => XPath st (astep first) (abbr_steps (arest rest))
+  end.
+Proof. reflexivity. Qed.
+
+Lemma str_eqb_true (a b : str) : str_eqb a b = true -> a = b.
+Proof.
+  revert b; induction a as [|x a IH]; intros [|y b]; cbn [str_eqb]; try discriminate; [reflexivity|].
+  intros H. apply andb_true_iff in H. destruct H as [Hx Hr]. apply N.eqb_eq in Hx. subst. f_equal. apply IH, Hr.
+Qed.
+
+Lemma norm_abbr_pred_top q : norm_pred_top (norm (abbr_pred_top q)) = norm_pred_top (norm q).
+Proof.
+  destruct q as [o a b| | | | | | | | |]; try reflexivity.
+  destruct o; try reflexivity. destruct a as [| | | | |f args| | | |]; try reflexivity.
+  destruct f as [[p|] f]; try reflexivity. destruct args; try reflexivity. destruct b; try reflexivity.
+  cbn [abbr_pred_top]. destruct (str_eqb f t_position) eqn:E; [|reflexivity].
+  apply str_eqb_true in E. subst. reflexivity.
+Qed.
+
+Definition F_steps (x : sep * xstep) : list xstep := let (s, y) := x in lead s ++ [nstep y].
+
+Lemma is_dos_eq d : is_dos d = true -> d = dos_step.
+Proof.
+  destruct d as [a t preds| |]; try discriminate. destruct a as [x| |]; try discriminate.
+  destruct x; try discriminate. destruct t as [| | |k|]; try discriminate. destruct k; try discriminate.
+  destruct preds; [reflexivity|discriminate].
+Qed.
+
+Lemma flat_map_abbr_steps : forall n l, (length l <= n)%nat -> flat_map F_steps (abbr_steps l) = flat_map F_steps l.
+Proof.
+  induction n as [|n IH]; intros l Hl.
+  - destruct l; [reflexivity|cbn in Hl; lia].
+  - destruct l as [|[s d] l]; [reflexivity|]. cbn [length] in Hl.
+    destruct s.
+    + destruct l as [|[s2 x] r].
+      * reflexivity.
+      * destruct s2.
+        -- cbn [abbr_steps]. destruct (is_dos d) eqn:Ed.
+           ++ apply is_dos_eq in Ed. subst d. cbn [flat_map]. rewrite (IH r) by (cbn [length] in Hl; lia). reflexivity.
+           ++ change (flat_map F_steps ((SSlash, d) :: abbr_steps ((SSlash, x) :: r)) = flat_map F_steps ((SSlash, d) :: (SSlash, x) :: r)).
+              cbn [flat_map]. f_equal. apply (IH ((SSlash, x) :: r)). cbn [length] in *. lia.
+        -- change (abbr_steps ((SSlash, d) :: (SDSlash, x) :: r)) with ((SSlash, d) :: abbr_steps ((SDSlash, x) :: r)).
+           cbn [flat_map]. f_equal. apply (IH ((SDSlash, x) :: r)). cbn [length] in *. lia.
+    + change (abbr_steps ((SDSlash, d) :: l)) with ((SDSlash, d) :: abbr_steps l).
+      cbn [flat_map]. f_equal. apply IH. lia.
+Qed.
+
+Lemma abbr_steps_nonempty x l : abbr_steps (x :: l) <> [].
+Proof.
+  destruct x as [s d]. destruct s; [|discriminate]. destruct l as [|[s2 y] r]; [discriminate|].
+  destruct s2; cbn [abbr_steps]; [destruct (is_dos d)|]; discriminate.
+Qed.
+
+Lemma norm_path_steps st first rest :
+  norm (XPath st first rest) =
+  match (match st with SRel => [] | SAbs s => lead s | SFrom _ s => lead s end)
+        ++ nstep first :: flat_map F_steps rest with
+  | [] => XRoot
+  | x :: r => XPath (match st with SRel => SRel | SAbs _ => SAbs SSlash | SFrom f _ => SFrom (norm f) SSlash end)
+                    x (map (fun y => (SSlash, y)) r)
+  end.
+Proof. reflexivity. Qed.
+
+Theorem norm_abbreviate : forall a, norm (abbreviate a) = norm a.
+Proof.
+  apply xexpr_size_ind. intros a IH.
+  assert (Hpred : forall q, (size q < size a)%nat -> norm_pred_top (norm (apred q)) = norm_pred_top (norm q)).
+  { intros q Hq. unfold apred. rewrite norm_abbr_pred_top, (IH q Hq). reflexivity. }
+  assert (Hpreds : forall l, (list_sum (map size l) < size a)%nat ->
+            map (fun q => norm_pred_top (norm q)) (map apred l) = map (fun q => norm_pred_top (norm q)) l).
+  { intros l Hsz. rewrite map_map. apply map_ext_in. intros x Hx. apply Hpred. pose proof (size_in x l Hx). lia. }
+  assert (Hstep : forall s, (step_size size s < size a)%nat -> nstep (astep s) = nstep s).
+  { intros s Hsz. destruct s as [ax t preds| |]; [|reflexivity|reflexivity]. cbn [step_size] in Hsz.
+    assert (Hgen : nstep (XStep (match ax with AFull XChild => AOmit | AFull XAttribute => AAt | _ => ax end) t (map apred preds))
+                   = nstep (XStep ax t preds)).
+    { cbn [nstep]. rewrite Hpreds by lia. f_equal. destruct ax as [x| |]; [destruct x|..]; reflexivity. }
+    cbn [astep]. destruct ax as [x| |]; try exact Hgen.
+    destruct x; try exact Hgen; destruct t as [| | |k|]; try exact Hgen; destruct k; try exact Hgen;
+      destruct preds; try exact Hgen; reflexivity. }
+  destruct a as [o l r|a'|s|s|q|f args|a'|p preds| |st first rest]; try reflexivity.
+  - cbn [abbreviate norm size] in *. rewrite (IH l), (IH r) by lia. reflexivity.
+  - cbn [abbreviate norm size] in *. rewrite (IH a') by lia. reflexivity.
+  - cbn [abbreviate norm size] in *. f_equal. rewrite map_map. apply map_ext_in. intros x Hx. apply IH.
+    pose proof (size_in x args Hx). lia.
+  - cbn [abbreviate norm size] in *. apply IH. lia.
+  - cbn [abbreviate size] in *. cbn [norm]. rewrite (IH p) by lia.
+    destruct preds as [|x preds']; [reflexivity|].
+    change (map (fun q => abbr_pred_top (abbreviate q)) (x :: preds')) with (map apred (x :: preds')).
+    cbn [map]. f_equal.
+    change (norm_pred_top (norm (apred x)) :: map (fun q => norm_pred_top (norm q)) (map apred preds'))
+      with (map (fun q => norm_pred_top (norm q)) (map apred (x :: preds'))).
+    rewrite Hpreds by lia. reflexivity.
+  - cbn [size] in IH, Hpred, Hpreds, Hstep.
+    assert (Hfirst : nstep (astep first) = nstep first) by (apply Hstep; lia).
+    assert (Hrest : flat_map F_steps (arest rest) = flat_map F_steps rest).
+    { assert (Hin : forall y, In y rest -> nstep (astep (snd y)) = nstep (snd y)).
+      { intros y Hy. apply Hstep. pose proof (size_in_rest y rest Hy). lia. }
+      clear -Hin. unfold arest. induction rest as [|[sp y] rest IHr]; [reflexivity|]. cbn [map flat_map F_steps].
+      pose proof (Hin (sp, y) (or_introl eq_refl)) as E. cbn [snd] in E. rewrite E. f_equal. apply IHr.
+      intros z Hz. apply Hin. right. exact Hz. }
+    assert (Hfull : flat_map F_steps (abbr_steps ((SSlash, astep first) :: arest rest)) = nstep first :: flat_map F_steps rest).
+    { rewrite (flat_map_abbr_steps _ _ (Nat.le_refl _)). cbn [flat_map F_steps lead app]. now rewrite Hfirst, Hrest. }
+    assert (Htail : flat_map F_steps (abbr_steps (arest rest)) = flat_map F_steps rest).
+    { rewrite (flat_map_abbr_steps _ _ (Nat.le_refl _)). exact Hrest. }
+    rewrite abbreviate_path_eq. rewrite (norm_path_steps st first rest).
+    destruct st as [|sp|f sp].
+    + rewrite norm_path_steps, Hfirst, Htail. reflexivity.
+    + destruct sp.
+      * destruct (abbr_steps ((SSlash, astep first) :: arest rest)) as [|[s x] r] eqn:E; [exfalso; eapply abbr_steps_nonempty, E|].
+        rewrite norm_path_steps. cbn [flat_map F_steps] in Hfull. cbn [lead app].
+        change (lead s ++ nstep x :: flat_map F_steps r) with (lead s ++ [nstep x] ++ flat_map F_steps r).
+        rewrite app_assoc. rewrite Hfull. reflexivity.
+      * rewrite norm_path_steps, Hfirst, Htail. reflexivity.
+    + assert (Hf : norm (abbreviate f) = norm f) by (apply IH; cbn [size]; lia).
+      destruct sp.
+      * destruct (abbr_steps ((SSlash, astep first) :: arest rest)) as [|[s x] r] eqn:E; [exfalso; eapply abbr_steps_nonempty, E|].
+        rewrite norm_path_steps. cbn [flat_map F_steps] in Hfull. cbn [lead app].
+        change (lead s ++ nstep x :: flat_map F_steps r) with (lead s ++ [nstep x] ++ flat_map F_steps r).
+        rewrite app_assoc. rewrite Hfull, Hf. reflexivity.
+      * rewrite norm_path_steps, Hfirst, Htail, Hf. reflexivity.
+Qed.
+
+Theorem abbreviate_equiv : forall a, abbreviate a ≈ a.
+Proof. intros a. unfold xequiv. apply norm_abbreviate. Qed.
+
+(** ** [abbreviate] yields a derivable tree *)
+Lemma abbreviate_is_path st first rest : exists st' f' r', abbreviate (XPath st first rest) = XPath st' f' r'.
+Proof.
+  rewrite abbreviate_path_eq. destruct st as [|sp|f sp]; [eauto|destruct sp|destruct sp]; eauto;
+  destruct (abbr_steps ((SSlash, astep first) :: arest rest)) as [|[s x] r]; eauto.
+Qed.
+
+Lemma abbr_shape : forall a,
+  level (abbreviate a) = level a /\ ends_root (abbreviate a) = ends_root a /\
+  is_primary (abbreviate a) = is_primary a /\ is_filter (abbreviate a) = is_filter a.
+Proof.
+  induction a as [o a IHa b IHb|a IHa|s|s|q|f args|a IHa|p IHp preds| |st first rest]; try (repeat split; reflexivity).
+  - cbn [abbreviate level ends_root is_primary is_filter]. repeat split; try reflexivity. apply IHb.
+  - cbn [abbreviate level ends_root is_primary is_filter]. repeat split; try reflexivity. apply IHa.
+  - destruct (abbreviate_is_path st first rest) as (st' & f' & r' & ->). repeat split; reflexivity.
+Qed.
+
+Lemma wfb_abbr_pred_top q : wfb q = true -> wfb (abbr_pred_top q) = true.
+Proof.
+  intros H. destruct q as [o a b| | | | | | | | |]; try exact H.
+  destruct o; try exact H. destruct a as [| | | | |f args| | | |]; try exact H.
+  destruct f as [[p|] f]; try exact H. destruct args; try exact H. destruct b; try exact H.
+  cbn [abbr_pred_top]. destruct (str_eqb f t_position); [|exact H].
+  cbn [wfb] in H. rewrite !andb_true_iff in H. apply H.
+Qed.
+
+Definition step_ok (Q : xexpr -> bool) (s : xstep) : bool :=
+  match s with XStep _ t preds => wf_ntest t && forallb Q preds | _ => true end.
+
+Lemma abbr_steps_forall (Pq : sep * xstep -> bool) : (forall s1 s2 y, Pq (s1, y) = Pq (s2, y)) ->
+  forall n l, (length l <= n)%nat -> forallb Pq l = true -> forallb Pq (abbr_steps l) = true.
+Proof.
+  intros Hsep. induction n as [|n IH]; intros l Hl Hall.
+  - destruct l; [reflexivity|cbn in Hl; lia].
+  - destruct l as [|[s d] l]; [reflexivity|]. cbn [length] in Hl. cbn [forallb] in Hall.
+    apply andb_true_iff in Hall. destruct Hall as [Hd Hrest].
+    destruct s.
+    + destruct l as [|[s2 x] r]; [cbn [abbr_steps forallb]; now rewrite Hd|].
+      destruct s2.
+      * cbn [abbr_steps]. cbn [forallb] in Hrest. apply andb_true_iff in Hrest. destruct Hrest as [Hx Hr].
+        destruct (is_dos d).
+        -- cbn [forallb]. rewrite (Hsep SDSlash SSlash x), Hx. apply IH; [cbn [length] in Hl; lia|exact Hr].
+        -- change (forallb Pq ((SSlash, d) :: abbr_steps ((SSlash, x) :: r)) = true). cbn [forallb]. rewrite Hd.
+           apply (IH ((SSlash, x) :: r)); [cbn [length] in *; lia|cbn [forallb]; now rewrite Hx, Hr].
+      * change (abbr_steps ((SSlash, d) :: (SDSlash, x) :: r)) with ((SSlash, d) :: abbr_steps ((SDSlash, x) :: r)).
+        cbn [forallb]. rewrite Hd. apply (IH ((SDSlash, x) :: r)); [cbn [length] in *; lia|exact Hrest].
+    + change (abbr_steps ((SDSlash, d) :: l)) with ((SDSlash, d) :: abbr_steps l).
+      cbn [forallb]. rewrite Hd. apply IH; [lia|exact Hrest].
+Qed.
+
+Lemma wfb_path_eq st first rest :
+  wfb (XPath st first rest) =
+  (match st with SRel => true | SAbs _ => true | SFrom f _ => is_filter f && wfb f end
+   && step_ok wfb first
+   && forallb (fun x : sep * xstep => let (_, s) := x in step_ok wfb s) rest).
+Proof. reflexivity. Qed.
+
+Theorem abbreviate_wf : forall a, wfb a = true -> wfb (abbreviate a) = true.
+Proof.
+  apply (xexpr_size_ind (fun a => wfb a = true -> wfb (abbreviate a) = true)). intros a IH Hwf.
+  assert (Hpreds : forall l, (list_sum (map size l) < size a)%nat -> forallb wfb l = true -> forallb wfb (map apred l) = true).
+  { intros l Hsz Hok. apply forallb_map_in. intros x Hx. rewrite forallb_forall in Hok. unfold apred.
+    apply wfb_abbr_pred_top, IH; [pose proof (size_in x l Hx); lia|apply Hok, Hx]. }
+  assert (Hstep : forall s, (step_size size s < size a)%nat -> step_ok wfb s = true -> step_ok wfb (astep s) = true).
+  { intros s Hsz Hok. destruct s as [ax t preds| |]; [|reflexivity|reflexivity]. cbn [step_size step_ok] in *.
+    apply andb_true_iff in Hok. destruct Hok as [Ht Hp].
+    assert (Hgen : step_ok wfb (XStep (match ax with AFull XChild => AOmit | AFull XAttribute => AAt | _ => ax end) t (map apred preds)) = true).
+    { cbn [step_ok]. rewrite Ht. apply Hpreds; [lia|exact Hp]. }
+    cbn [astep]. destruct ax as [x| |]; try exact Hgen.
+    destruct x; try exact Hgen; destruct t as [| | |k|]; try exact Hgen; destruct k; try exact Hgen;
+      destruct preds; try exact Hgen; reflexivity. }
+  destruct a as [o l r|a'|s|s|q|f args|a'|p preds| |st first rest]; try exact Hwf.
+  - cbn [abbreviate wfb size] in *. rewrite !andb_true_iff in Hwf. destruct Hwf as [[[[H1 H2] H3] Hl] Hr].
+    destruct (abbr_shape l) as (E1 & E2 & _). destruct (abbr_shape r) as (E3 & _).
+    rewrite E1, E2, E3, H1, H2, H3, (IH l) by (lia || assumption). rewrite (IH r) by (lia || assumption). reflexivity.
+  - cbn [abbreviate wfb size] in *. apply andb_true_iff in Hwf. destruct Hwf as [H1 Ha].
+    destruct (abbr_shape a') as (E1 & _). rewrite E1, H1, (IH a') by (lia || assumption). reflexivity.
+  - cbn [abbreviate wfb size] in *. apply andb_true_iff in Hwf. destruct Hwf as [Hf Hargs]. rewrite Hf. cbn [andb].
+    apply forallb_map_in. intros x Hx. rewrite forallb_forall in Hargs.
+    apply IH; [pose proof (size_in x args Hx); lia|apply Hargs, Hx].
+  - cbn [abbreviate wfb size] in *. apply IH; [lia|exact Hwf].
+  - cbn [abbreviate wfb size] in *. rewrite !andb_true_iff in Hwf. destruct Hwf as [[[Hprim Hp] Hne] Hpreds'].
+    destruct (abbr_shape p) as (_ & _ & E3 & _). rewrite E3, Hprim, (IH p) by (lia || assumption).
+    change (map (fun q => abbr_pred_top (abbreviate q)) preds) with (map apred preds).
+    rewrite (Hpreds preds) by (lia || assumption). destruct preds; [discriminate|reflexivity].
+  - rewrite wfb_path_eq in Hwf. rewrite !andb_true_iff in Hwf. destruct Hwf as [[Hst Hfirst] Hrest]. cbn [size] in *.
+    assert (Hfirst' : step_ok wfb (astep first) = true) by (apply Hstep; [lia|exact Hfirst]).
+    assert (Hrest' : forallb (fun x : sep * xstep => let (_, s) := x in step_ok wfb s) (arest rest) = true).
+    { unfold arest. apply forallb_map_in. intros [sp y] Hy. rewrite forallb_forall in Hrest.
+      pose proof (size_in_rest (sp, y) rest Hy) as Hsz. cbn [snd] in Hsz. apply Hstep; [lia|apply (Hrest (sp, y) Hy)]. }
+    assert (Hsep : forall (s1 s2 : sep) (y : xstep),
+              (let (_, s) := (s1, y) in step_ok wfb s) = (let (_, s) := (s2, y) in step_ok wfb s)) by reflexivity.
+    assert (Htail : forallb (fun x : sep * xstep => let (_, s) := x in step_ok wfb s) (abbr_steps (arest rest)) = true).
+    { apply (abbr_steps_forall _ Hsep _ _ (Nat.le_refl _)), Hrest'. }
+    assert (Hfull : forallb (fun x : sep * xstep => let (_, s) := x in step_ok wfb s) (abbr_steps ((SSlash, astep first) :: arest rest)) = true).
+    { apply (abbr_steps_forall _ Hsep _ _ (Nat.le_refl _)). cbn [forallb]. now rewrite Hfirst', Hrest'. }
+    rewrite abbreviate_path_eq. destruct st as [|sp|f sp].
+    + rewrite wfb_path_eq, Hfirst', Htail. reflexivity.
+    + destruct sp.
+      * destruct (abbr_steps ((SSlash, astep first) :: arest rest)) as [|[s x] r] eqn:E; [exfalso; eapply abbr_steps_nonempty, E|].
+        cbn [forallb] in Hfull. apply andb_true_iff in Hfull. destruct Hfull as [Hx Hr].
+        rewrite wfb_path_eq, Hx, Hr. reflexivity.
+      * rewrite wfb_path_eq, Hfirst', Htail. reflexivity.
+    + apply andb_true_iff in Hst. destruct Hst as [Hff Hwf'].
+      destruct (abbr_shape f) as (_ & _ & _ & E4).
+      assert (Hf' : wfb (abbreviate f) = true) by (apply IH; [lia|exact Hwf']).
+      destruct sp.
+      * destruct (abbr_steps ((SSlash, astep first) :: arest rest)) as [|[s x] r] eqn:E; [exfalso; eapply abbr_steps_nonempty, E|].
+        cbn [forallb] in Hfull. apply andb_true_iff in Hfull. destruct Hfull as [Hx Hr].
+        rewrite wfb_path_eq, E4, Hff, Hf', Hx, Hr. reflexivity.
+      * rewrite wfb_path_eq, E4, Hff, Hf', Hfirst', Htail. reflexivity.
+Qed.
+
+(** [abbreviate] introduces no function name *)
+Lemma nfc_abbr_pred_top q : no_fname_case q = true -> no_fname_case (abbr_pred_top q) = true.
+Proof.
+  intros H. destruct q as [o a b| | | | | | | | |]; try exact H.
+  destruct o; try exact H. destruct a as [| | | | |f args| | | |]; try exact H.
+  destruct f as [[p|] f]; try exact H. destruct args; try exact H. destruct b; try exact H.
+  cbn [abbr_pred_top]. destruct (str_eqb f t_position); [reflexivity|exact H].
+Qed.
+
+Definition step_nfc (s : xstep) : bool :=
+  match s with XStep _ _ preds => forallb no_fname_case preds | _ => true end.
+
+Lemma nfc_path_eq st first rest :
+  no_fname_case (XPath st first rest) =
+  (match st with SFrom f _ => no_fname_case f | _ => true end
+   && step_nfc first && forallb (fun x : sep * xstep => let (_, s) := x in step_nfc s) rest).
+Proof. reflexivity. Qed.
+
+Theorem abbreviate_nfc : forall a, no_fname_case a = true -> no_fname_case (abbreviate a) = true.
+Proof.
+  apply (xexpr_size_ind (fun a => no_fname_case a = true -> no_fname_case (abbreviate a) = true)). intros a IH Hn.
+  assert (Hpreds : forall l, (list_sum (map size l) < size a)%nat -> forallb no_fname_case l = true ->
+            forallb no_fname_case (map apred l) = true).
+  { intros l Hsz Hok. apply forallb_map_in. intros x Hx. rewrite forallb_forall in Hok. unfold apred.
+    apply nfc_abbr_pred_top, IH; [pose proof (size_in x l Hx); lia|apply Hok, Hx]. }
+  assert (Hstep : forall s, (step_size size s < size a)%nat -> step_nfc s = true -> step_nfc (astep s) = true).
+  { intros s Hsz Hok. destruct s as [ax t preds| |]; [|reflexivity|reflexivity]. cbn [step_size step_nfc] in *.
+    assert (Hgen : step_nfc (XStep (match ax with AFull XChild => AOmit | AFull XAttribute => AAt | _ => ax end) t (map apred preds)) = true).
+    { cbn [step_nfc]. apply Hpreds; [lia|exact Hok]. }
+    cbn [astep]. destruct ax as [x| |]; try exact Hgen.
+    destruct x; try exact Hgen; destruct t as [| | |k|]; try exact Hgen; destruct k; try exact Hgen;
+      destruct preds; try exact Hgen; reflexivity. }
+  destruct a as [o l r|a'|s|s|q|f args|a'|p preds| |st first rest]; try exact Hn.
+  - cbn [abbreviate no_fname_case size] in *. apply andb_true_iff in Hn. destruct Hn as [Hl Hr].
+    rewrite (IH l), (IH r) by (lia || assumption). reflexivity.
+  - cbn [abbreviate no_fname_case size] in *. apply IH; [lia|exact Hn].
+  - cbn [abbreviate no_fname_case size] in *. apply andb_true_iff in Hn. destruct Hn as [Hf Hargs]. rewrite Hf. cbn [andb].
+    apply forallb_map_in. intros x Hx. rewrite forallb_forall in Hargs.
+    apply IH; [pose proof (size_in x args Hx); lia|apply Hargs, Hx].
+  - cbn [abbreviate no_fname_case size] in *. apply IH; [lia|exact Hn].
+  - cbn [abbreviate no_fname_case size] in *. apply andb_true_iff in Hn. destruct Hn as [Hp Hpr].
+    rewrite (IH p) by (lia || assumption).
+    change (map (fun q => abbr_pred_top (abbreviate q)) preds) with (map apred preds).
+    rewrite (Hpreds preds) by (lia || assumption). reflexivity.
+  - rewrite nfc_path_eq in Hn. rewrite !andb_true_iff in Hn. destruct Hn as [[Hst Hfirst] Hrest]. cbn [size] in *.
+    assert (Hfirst' : step_nfc (astep first) = true) by (apply Hstep; [lia|exact Hfirst]).
+    assert (Hrest' : forallb (fun x : sep * xstep => let (_, s) := x in step_nfc s) (arest rest) = true).
+    { unfold arest. apply forallb_map_in. intros [sp y] Hy. rewrite forallb_forall in Hrest.
+      pose proof (size_in_rest (sp, y) rest Hy) as Hsz. cbn [snd] in Hsz. apply Hstep; [lia|apply (Hrest (sp, y) Hy)]. }
+    assert (Hsep : forall (s1 s2 : sep) (y : xstep),
+              (let (_, s) := (s1, y) in step_nfc s) = (let (_, s) := (s2, y) in step_nfc s)) by reflexivity.
+    assert (Htail : forallb (fun x : sep * xstep => let (_, s) := x in step_nfc s) (abbr_steps (arest rest)) = true).
+    { apply (abbr_steps_forall _ Hsep _ _ (Nat.le_refl _)), Hrest'. }
+    assert (Hfull : forallb (fun x : sep * xstep => let (_, s) := x in step_nfc s) (abbr_steps ((SSlash, astep first) :: arest rest)) = true).
+    { apply (abbr_steps_forall _ Hsep _ _ (Nat.le_refl _)). cbn [forallb]. now rewrite Hfirst', Hrest'. }
+    rewrite abbreviate_path_eq. destruct st as [|sp|f sp].
+    + rewrite nfc_path_eq, Hfirst', Htail. reflexivity.
+    + destruct sp.
+      * destruct (abbr_steps ((SSlash, astep first) :: arest rest)) as [|[s x] r] eqn:E; [exfalso; eapply abbr_steps_nonempty, E|].
+        cbn [forallb] in Hfull. apply andb_true_iff in Hfull. destruct Hfull as [Hx Hr].
+        rewrite nfc_path_eq, Hx, Hr. reflexivity.
+      * rewrite nfc_path_eq, Hfirst', Htail. reflexivity.
+    + assert (Hf' : no_fname_case (abbreviate f) = true) by (apply IH; [lia|exact Hst]).
+      destruct sp.
+      * destruct (abbr_steps ((SSlash, astep first) :: arest rest)) as [|[s x] r] eqn:E; [exfalso; eapply abbr_steps_nonempty, E|].
+        cbn [forallb] in Hfull. apply andb_true_iff in Hfull. destruct Hfull as [Hx Hr].
+        rewrite nfc_path_eq, Hf', Hx, Hr. reflexivity.
+      * rewrite nfc_path_eq, Hf', Hfirst', Htail. reflexivity.
+Qed.
